@@ -145,6 +145,16 @@ class Catalogue:
                             var = names[rest[0]] if len(rest) == 1 else None
                         elif 0 <= tk < len(names):
                             var = names[tk]
+                    # `self.start_edge == Horizontal::V` with the derived (discriminant) equality of the field-less enum
+                    if c[0] == "call" and re.search(r"Horizontal as core::cmp::PartialEq>::eq$", c[1]) and len(c[2]) == 2 and len(names) == 2 and \
+                            c[1].endswith("::eq") and c[1] in prog.bodies and \
+                            [strip(r_) for r_ in Expr(prog, c[1]).returns()] == [("bin", "Eq", ("discr", ("param", 1, ())), ("discr", ("param", 2, ())))]:
+                        a0, a1 = strip(c[2][0]), strip(c[2][1])
+                        if a1[0] == "param":
+                            a0, a1 = a1, a0
+                        if a0[0] == "param" and a0[2][-1:] == ("start_edge",) and a1[0] == "agg" and a1[2] in names:
+                            truth = tk != 0
+                            var = a1[2] if truth else [n for n in names if n != a1[2]][0]
                 if var is None:
                     seen_v["?"] = None
                     continue
